@@ -36,6 +36,8 @@ func init() {
 	hk.Register("c16", "sweep", sweep)
 	hk.Register("c16", "interleave", interleave)
 	hk.Register("c16", "handoff", handoff)
+	hk.Register("c16", "cleansweep", cleansweep)
+	hk.Register("c16", "locktimeout", locktimeout)
 }
 
 const key = "entry"
@@ -740,5 +742,246 @@ func oneHandoff(id int, backend string, k int, scratch string, out *hk.Writer) e
 	}
 	res := call(func() error { return w.clients["B"].repo.Fetch(ctx, key, w.clients["B"].dest) }, 5*time.Second)
 	out.Write(ilEvent{Op: "FinalFetch", ID: id, C: "B", Result: res, Match: w.classify(w.clients["B"].dest), Quiet: true})
+	return nil
+}
+
+// ---- clean sweep: CleanEntry of the immutable cache against a Store that completes in the middle of it ---------------
+//
+// Two complete versions are stored; client A's CleanEntry is stopped before its k-th backend call, client B runs a
+// complete Store(v3), A goes on.  Whatever A decided before B's Store, the version B stored must be what a Fetch returns.
+
+func cleansweep(a *hk.Args) error {
+	out, err := hk.NewWriter(a.Out)
+	if err != nil {
+		return err
+	}
+	defer out.Close()
+	ctx := context.Background()
+	id := 300000
+	for _, backend := range []string{"mem", "os"} {
+		// dry run: how many backend calls does CleanEntry take over two versions?
+		w, err := newWorld(backend, "immutable", []string{"A", "B"}, a.Dir)
+		if err != nil {
+			return err
+		}
+		for v := 1; v <= 2; v++ {
+			if r := call(func() error { return w.clients["A"].repo.Store(ctx, key, w.src(v)) }, 10*time.Second); r != "" {
+				w.close()
+				return fmt.Errorf("immutable/%s: baseline Store(v%d) failed: %s", backend, v, r)
+			}
+			time.Sleep(15 * time.Millisecond) // the packages are ordered by their modification times
+		}
+		before := w.gate.Count("A")
+		_ = call(func() error { return w.clients["A"].repo.CleanEntry(ctx, key) }, 10*time.Second)
+		total := w.gate.Count("A") - before
+		w.close()
+		for k := 1; k <= total; k++ {
+			id++
+			if err := oneCleanSweep(id, backend, k, a.Dir, out); err != nil {
+				return err
+			}
+			out.Flush()
+		}
+	}
+	out.Write(ilEvent{Op: "End"})
+	return nil
+}
+
+func oneCleanSweep(id int, backend string, k int, scratch string, out *hk.Writer) error {
+	ctx := context.Background()
+	w, err := newWorld(backend, "immutable", []string{"A", "B"}, scratch)
+	if err != nil {
+		return err
+	}
+	defer w.close()
+	out.Write(ilEvent{Op: "Begin", ID: id, Cache: "immutable", Backend: backend, Seq: k})
+	for v := 1; v <= 2; v++ {
+		if v > 1 {
+			out.Write(ilEvent{Op: "StoreBegin", ID: id, C: "A", V: v})
+		}
+		if r := call(func() error { return w.clients["A"].repo.Store(ctx, key, w.src(v)) }, 10*time.Second); r != "" {
+			return fmt.Errorf("baseline Store(v%d) failed: %s", v, r)
+		}
+		out.Write(ilEvent{Op: "Stored", ID: id, C: "A", V: v, Result: "", Quiet: true})
+		time.Sleep(15 * time.Millisecond)
+	}
+	// A's CleanEntry, stopped before its k-th backend call
+	w.gate.SetGating("A", true)
+	w.gate.SetGating("B", false)
+	aDone := make(chan string, 1)
+	go func() { aDone <- call(func() error { return w.clients["A"].repo.CleanEntry(ctx, key) }, 15*time.Second) }()
+	finished := false
+	for step := 1; step < k && !finished; step++ {
+		deadline := time.Now().Add(3 * time.Second)
+		for w.gate.Peek("A") == nil && time.Now().Before(deadline) && !finished {
+			select {
+			case <-aDone:
+				finished = true
+			case <-time.After(200 * time.Microsecond):
+			}
+		}
+		if p := w.gate.Peek("A"); p != nil {
+			w.gate.Release(p, fsgate.Proceed)
+		}
+	}
+	if !finished {
+		// wait until A is parked at its k-th call (or has finished)
+		deadline := time.Now().Add(3 * time.Second)
+		for w.gate.Peek("A") == nil && time.Now().Before(deadline) && !finished {
+			select {
+			case <-aDone:
+				finished = true
+			case <-time.After(200 * time.Microsecond):
+			}
+		}
+	}
+	// B: a complete Store in the middle of it
+	out.Write(ilEvent{Op: "StoreBegin", ID: id, C: "B", V: 3})
+	bRes := call(func() error { return w.clients["B"].repo.Store(ctx, key, w.src(3)) }, 10*time.Second)
+	out.Write(ilEvent{Op: "Stored", ID: id, C: "B", V: 3, Result: bRes, Quiet: true})
+	// A goes on
+	w.gate.SetGating("A", false)
+	for t := time.Now(); !finished && time.Since(t) < 10*time.Second; {
+		if p := w.gate.Peek("A"); p != nil {
+			w.gate.Release(p, fsgate.Proceed)
+		}
+		select {
+		case <-aDone:
+			finished = true
+		case <-time.After(200 * time.Microsecond):
+		}
+	}
+	res := call(func() error { return w.clients["B"].repo.Fetch(ctx, key, w.clients["B"].dest) }, 5*time.Second)
+	out.Write(ilEvent{Op: "FinalFetch", ID: id, C: "B", Result: res, Match: w.classify(w.clients["B"].dest), Quiet: true})
+	return nil
+}
+
+// ---- lock time-out: a client that gives up waiting for the entry's lock must leave the holder's lock alone -----------
+//
+// Lock-based cache, three clients.  A's Store(v2) is stopped inside its transfer (it holds the entry's lock); B's Fetch
+// waits for the lock and times out; then C runs a Store(v3) (it can only get the lock if B's time-out broke it), A is
+// let go, and a final Fetch is made.  SharedCacheTrace.tla orders the Stores by their critical sections.
+
+func locktimeout(a *hk.Args) error {
+	out, err := hk.NewWriter(a.Out)
+	if err != nil {
+		return err
+	}
+	defer out.Close()
+	id := 400000
+	for _, backend := range []string{"mem", "os"} {
+		for _, depth := range []int{1, 4, 12} { // how many backend calls into its critical section A is stopped
+			id++
+			if err := oneLockTimeout(id, backend, depth, a.Dir, out); err != nil {
+				return err
+			}
+			out.Flush()
+		}
+	}
+	out.Write(ilEvent{Op: "End"})
+	return nil
+}
+
+func oneLockTimeout(id int, backend string, depth int, scratch string, out *hk.Writer) error {
+	ctx := context.Background()
+	w, err := newWorld(backend, "mutable", []string{"A", "B", "C"}, scratch)
+	if err != nil {
+		return err
+	}
+	defer w.close()
+	out.Write(ilEvent{Op: "Begin", ID: id, Cache: "mutable", Backend: backend, Seq: depth})
+	if r := call(func() error { return w.clients["A"].repo.Store(ctx, key, w.src(1)) }, 10*time.Second); r != "" {
+		return fmt.Errorf("baseline Store(v1) failed: %s", r)
+	}
+	out.Write(ilEvent{Op: "Stored", ID: id, C: "A", V: 1, Result: "", Quiet: true})
+	lockDir, _ := w.lockPaths()
+	var smu sync.Mutex
+	storingNow := map[string]bool{}
+	acquired := make(chan string, 8)
+	w.gate.OnEvent = func(g *fsgate.Event) {
+		if g.Op == "Mkdir" && g.OK && filepath.Clean(g.Path) == lockDir {
+			smu.Lock()
+			in := storingNow[g.Owner]
+			smu.Unlock()
+			if in {
+				out.Write(ilEvent{Op: "LockAcquired", ID: id, C: g.Owner})
+				select {
+				case acquired <- g.Owner:
+				default:
+				}
+			}
+		}
+	}
+	for _, c := range []string{"A", "B", "C"} {
+		w.gate.SetGating(c, false)
+		w.gate.SetGating(c+".hb", false)
+	}
+	// A: Store(v2), stopped `depth` backend calls after it has the lock
+	w.gate.SetGating("A", true)
+	smu.Lock()
+	storingNow["A"] = true
+	smu.Unlock()
+	out.Write(ilEvent{Op: "StoreBegin", ID: id, C: "A", V: 2})
+	aDone := make(chan string, 1)
+	go func() { aDone <- call(func() error { return w.clients["A"].repo.Store(ctx, key, w.src(2)) }, 20*time.Second) }()
+	inside, after, aFinished, aRes := false, 0, false, ""
+	for t := time.Now(); time.Since(t) < 10*time.Second && !aFinished; {
+		select {
+		case <-acquired:
+			inside = true
+		case aRes = <-aDone:
+			aFinished = true
+		default:
+		}
+		if inside && after >= depth {
+			break
+		}
+		if p := w.gate.Peek("A"); p != nil {
+			w.gate.Release(p, fsgate.Proceed)
+			if inside {
+				after++
+			}
+		} else {
+			time.Sleep(200 * time.Microsecond)
+		}
+	}
+	if aFinished || !inside {
+		return fmt.Errorf("lock time-out scenario %d: Store(v2) was not stopped inside its critical section (finished=%v inside=%v %s)", id, aFinished, inside, aRes)
+	}
+	// B: a Fetch that has to wait for the lock and gives up (the repository's lock time-out is 400 ms)
+	out.Write(ilEvent{Op: "FetchBegin", ID: id, C: "B"})
+	bRes := call(func() error { return w.clients["B"].repo.Fetch(ctx, key, w.clients["B"].dest) }, 10*time.Second)
+	out.Write(ilEvent{Op: "Fetched", ID: id, C: "B", Result: bRes, Match: w.classify(w.clients["B"].dest)})
+	// C: a Store while A is still inside
+	smu.Lock()
+	storingNow["C"] = true
+	smu.Unlock()
+	out.Write(ilEvent{Op: "StoreBegin", ID: id, C: "C", V: 3})
+	cRes := call(func() error { return w.clients["C"].repo.Store(ctx, key, w.src(3)) }, 10*time.Second)
+	smu.Lock()
+	storingNow["C"] = false
+	smu.Unlock()
+	out.Write(ilEvent{Op: "Stored", ID: id, C: "C", V: 3, Result: cRes})
+	// A goes on
+	w.gate.SetGating("A", false)
+	for t := time.Now(); !aFinished && time.Since(t) < 15*time.Second; {
+		if p := w.gate.Peek("A"); p != nil {
+			w.gate.Release(p, fsgate.Proceed)
+		}
+		select {
+		case aRes = <-aDone:
+			aFinished = true
+		case <-time.After(200 * time.Microsecond):
+		}
+	}
+	smu.Lock()
+	storingNow["A"] = false
+	smu.Unlock()
+	if !aFinished {
+		aRes = "blocked"
+	}
+	out.Write(ilEvent{Op: "Stored", ID: id, C: "A", V: 2, Result: aRes})
+	res := call(func() error { return w.clients["C"].repo.Fetch(ctx, key, w.clients["C"].dest) }, 5*time.Second)
+	out.Write(ilEvent{Op: "FinalFetch", ID: id, C: "C", Result: res, Match: w.classify(w.clients["C"].dest), Quiet: true})
 	return nil
 }
